@@ -84,3 +84,7 @@ PROPERTY = Property(
          "+ rounding of forming mu'-mu from the outputs + (TM) 2 kappa/c^2 per tied pair; equal-variance corollary; non-trivial = n >= 3 or a tie; distinct by SHA-1",
     assumptions=["tolerance is relative to the summands' magnitude, not to the net change (which is mathematically 0)"],
 )
+
+from vf import opt as _opt  # noqa: E402
+
+PROPERTY.clauses.append(_opt.optimised("C07", next(c for c in PROPERTY.clauses if c.name == "precision-weighted-balance"), quick=64, thorough=640))
